@@ -43,9 +43,12 @@ def cases(tier, seed):
         hard = i % 3 == 2
         if hard:
             # starved line searches / a demanding curvature test on non-convex objectives: splits right after a rejected pair
-            ps = gen.rand_spec(rng, ("rosenbrock", "beale", "styblinski_tang", "rastrigin", "griewank", "ackley", "qp_inf_region", "qp_inf_region", "qp_nan_region"), nmax=6, nmin=2,
+            ps = gen.rand_spec(rng, ("rosenbrock", "beale", "styblinski_tang", "rastrigin", "griewank", "ackley", "qp_inf_region", "qp_nan_region", "edge_walk", "edge_walk", "edge_walk"), nmax=6, nmin=2,
                                boxes=("mixed", "boxed", "boxed", "lower", "upper", "none"), starts=("interior", "face", "vertex"))
-        yield {"problem": ps, "maxcor": int(rng.integers(1, 8)), "K": int(rng.integers(4, 13)), "maxls": int(gen.pick(rng, [1, 2, 3, 3] if hard else [5, 20, 20])),
+        if ps["family"] == "edge_walk":
+            ps["n"] = int(rng.integers(1, 4))
+        yield {"problem": ps, "maxcor": int(rng.integers(1, 8)), "K": int(rng.integers(4, 13)),
+               "maxls": int(gen.pick(rng, ([20] if ps["family"] == "edge_walk" else [1, 2, 3, 3]) if hard else [5, 20, 20])),
                "eps_SY": float(gen.pick(rng, [2.2e-16, 1e-3, 1e-2, 0.1])) if hard else 2.2e-16,
                "long_chain": bool(rng.random() < 0.25), "eps": float(gen.pick(rng, [1e-8, 1e-8, 1e-3, 1e-1])),
                "jac": "callable" if hard else gen.pick(rng, ["callable", "callable", "callable", None, "2-point"]),  # (acceptance decisions at their threshold + differencing noise: not decidable)
